@@ -143,6 +143,7 @@ def gen_inputs(tier, rnd):
                 cells.append(good[:p] + "\x7f" + good[p:])
             if fmt == "fixed":
                 w = length[0][0]
-                cells += [(good + " " * w)[:max(w, len(good))], " " * w, " " * (w + 1), good + " "]
+                cells += [(good + " " * w)[:max(w, len(good))], " " * w, " " * (w + 1), good + " ",
+                          " " + good, (" " * w + good)[-max(w, len(good)):], "\t" + good[:1] + " "]
             for cell in cells:
                 yield [fmt, ftype, empty, length, allowed, cell]
